@@ -6,6 +6,9 @@ TRUSTED_COMMON = [
     "factgen (go/ast extractor, /verif/factgen) and the hand-written expectations in lean/PsaDhcp/Expect.lean",
     "the correspondence harness (/verif/harness): generators bound what is seen, not what is proved; canonical rendering; line diff",
     "Go toolchain go1.26.8, its standard library and runtime",
+    "for the *Code theorems (PsaDhcp.Gen regenerated from /repo by /verif/xlate on every run): the translator and the reading of Go in "
+    "lean/PsaDhcp/Go/Prelude.lean — value semantics for slices (no aliasing), nil = empty slice, unbounded int, array lengths as hypotheses; "
+    "validated by the proofs Gen.f = model f together with the byte-exact correspondence of the same models with the real functions",
 ]
 
 PROPS = {
@@ -27,7 +30,8 @@ PROPS = {
                 "48 (thorough 600) real-time burst scenarios of 2-5 hosts; non-trivial = the server answered",
         "trusted": ["vnet socket fakes, fake libif, testing/synctest virtual clock (sequential scripts only)",
                     "rand.Perm / rand.Int63n: never predicted — the model is driven by the observed probe order and reply instants",
-                    "bridge from observed probes to findLoop oracles (Driver findLoopObs) is executable-only, not yet a theorem"],
+                    "the driver replays observed probe orders (findLoopObs); that an accepted observation is a run of findLoop for some oracle is "
+                    "a theorem (Proofs/Observed.lean)"],
         "assumptions": ["clock readings non-decreasing; grant times are the clock of the justifying database call (not before the client sent its message)",
                         "0 <= lease duration (configuration validation enforces >= 1 min)"],
     },
@@ -35,7 +39,8 @@ PROPS = {
         "level": "Every address in an OFFER/ACK of every reachable system state lies in the managed range (network and broadcast address excluded by "
                  "fromTo_excludes), is not the server's own, and is in the enabled dynamic range unless it is the static address of that hardware "
                  "address; static_only blocks everything else (handed_out_allowed, static_only_blocks_dynamic, ranges_fixed) — Lean theorems over all "
-                 "interleavings; correspondence and yiaddr-vs-configuration monitor as for C01.",
+                 "interleavings; correspondence and yiaddr-vs-configuration monitor as for C01."
+                 " fromTo/toUip/InManagedRange and duidFromHwAddr as translated from the source on every run equal the models (C02Code, C11Code).",
         "props": ["C02", "C11Code", "C02Code"],
         "streams": [{"test": "TestSrvSeq", "names": ["srvseq"], "timeout": 300}, {"test": "TestCfgNew", "names": ["cfgnew"], "timeout": 300}],
         "rule": "as C01 (configurations enumerate range positions, statics inside/outside the range, static_only; suggestions drawn from {in range, "
@@ -93,7 +98,8 @@ PROPS = {
                  "own address, ports 67->68, IP source = own address, destination by the broadcast flag, link-layer destination likewise, checksums "
                  "verifying (lease_reply_wire, nak_reply_wire, composed from the C12/C13 round trips); at most one reply per handler "
                  "(at_most_one_reply, done_is_final) — Lean theorems; byte-exact comparison of every frame in all server streams and an independent "
-                 "decoder as monitor.",
+                 "decoder as monitor."
+                 " Reply assembly of lib/server/replies as translated from the source on every run equals assembleLease/assembleNak (C06Code); the codecs below it are C13Code.",
         "props": ["C06", "C13Code", "C06Code"],
         "streams": [{"test": "TestSrvSeq", "names": ["srvseq"], "timeout": 300}, {"test": "TestReqMatrix", "names": ["reqmatrix"], "timeout": 300}],
         "rule": "every reply frame of the C01 scripts and of the request matrix (xid, all 16 flag bits in 5% of the messages, hardware-address lengths "
@@ -176,7 +182,8 @@ PROPS = {
                  "(map with two keys per record, pointer identity, lazy per-key expiry) equal those of a reference table with at most one live "
                  "binding per address and per client (clients_refine, ipdb_refine, table_exclusive), plus the iff-characterisations of update and "
                  "the FindIP postconditions — Lean theorems for all histories; tied to the code by exhaustive small-scope and random differential "
-                 "runs of the real clients/ipdb packages under a virtual clock.",
+                 "runs of the real clients/ipdb packages under a virtual clock."
+                 " Uip.Valid/ToV4 as translated from the source equal the model's (C11Code).",
         "props": ["C11", "C11Code"],
         "streams": [{"test": "TestClients", "names": ["clients"], "timeout": 600}, {"test": "TestIpdb", "names": ["ipdb"], "timeout": 600}],
         "rule": "Clients API: ALL operation sequences up to length 3 (quick; 4 thorough, depth 4 over a reduced alphabet) over 2 addresses x 2 clients x "
@@ -194,7 +201,8 @@ PROPS = {
         "level": "The client's acceptance predicate as an iff (verify_passed_iff, accept_iff, nack_iff): a frame is taken as the awaited OFFER/ACK "
                  "exactly when every conjunct of the property holds; every other packet is ignored without effect; the receive path never indexes out "
                  "of range — Lean theorems over all byte strings / decoded messages. Tied to the code by running the real catchReply + verifiers on the "
-                 "virtual segment over every combination of violated conjuncts x 4 waiting states, plus mutated frames.",
+                 "virtual segment over every combination of violated conjuncts x 4 waiting states, plus mutated frames."
+                 " The six predicates of lib/client/verify as translated from the source on every run equal the model's (C14Code).",
         "props": ["C14", "C14Code"],
         "streams": [{"test": "TestCliCatch", "names": ["clicatch"], "timeout": 600}],
         "rule": "all 2^11 combinations of violated conjuncts (quick: all singles and pairs + 1/8 of the rest; thorough: all) x {offer, selecting, renewing, "
@@ -227,7 +235,8 @@ PROPS = {
         "level": "Each of the four client message templates read back with the stack's decoders has exactly the source/destination/ciaddr/option "
                  "pattern of its state, ports 68->67, valid checksums, hardware address, derived client identifier (template_wire); retransmission "
                  "spacing >= 700 ms and non-decreasing for every random stream (retransmit_delays) — Lean theorems; byte-exact correspondence with "
-                 "msgtmpl and observed schedules of the real sendMessage under a virtual clock.",
+                 "msgtmpl and observed schedules of the real sendMessage under a virtual clock."
+                 " (*tmpl).request of lib/client/msgtmpl as translated from the source on every run equals clientRequest, the math/rand draw being a parameter (C16Code).",
         "props": ["C16", "C13Code", "C16Code"],
         "streams": [{"test": "TestCliTmpl", "names": ["clitmpl"], "timeout": 600}],
         "rule": "random hardware addresses (1..16 bytes), offered/server addresses incl. 0.0.0.0 and broadcast, all four states, two transmissions per "
@@ -303,7 +312,8 @@ PROPS = {
         "level": "DHCP codec: decode(assemble m) = m for every representable message, acceptance of arbitrary bytes iff the RFC 2131 layout + RFC 2132 "
                  "option-area grammar, typed accessors exact, no out-of-range access — Lean theorems over all byte strings/messages; tied to the Go "
                  "code by byte-exact differential correspondence (exhaustive short option areas, structured, mutated, random) with an independent RFC "
-                 "parser as monitor.",
+                 "parser as monitor."
+                 " The same for the CODE as translated from lib/dhcpmsg/*.go on every run (C12Code: Gen.Decode/Assemble/DecodeOptions/typed accessors/option constructors = the models; code_decode_iff_grammar, code_decode_never_panics).",
         "props": ["C12", "C12Code"],
         "streams": [{"test": "TestDhcp", "names": ["dhcp"], "timeout": 300}],
         "rule": "exhaustive option areas (length<=5 quick / <=7 thorough over {0,1,2,3,53,254,255}) appended to a fixed header, random structured "
@@ -316,7 +326,8 @@ PROPS = {
     "C13": {
         "level": "IPv4/UDP/ARP: header and UDP checksums verify for every payload up to the datagram maximum (uint32 accumulator proved not to wrap), "
                  "length fields, decode∘assemble, decoder strictness and absence of out-of-range accesses — Lean theorems; byte-exact correspondence "
-                 "with the Go codecs and an independent RFC 1071/768 monitor.",
+                 "with the Go codecs and an independent RFC 1071/768 monitor."
+                 " The same clauses are proved for the CODE as translated from lib/layer/*.go on every run (C13Code: Gen.f = model f for ipv4csum, setV4Checksum, udp4csum, pseudohdrcsum, the three Assemble and three Decode functions; code_ip_checksum_verifies, code_udp_checksum_verifies, code_decoder_strict_ip/udp, code_decoders_never_panic).",
         "props": ["C13", "C13Code"],
         "streams": [{"test": "TestWire", "names": ["wire"], "timeout": 300}],
         "rule": "UDP-in-IPv4 assembly over payload lengths {0..64, 1471..1473, 65505..65507, beyond the maximum} x byte patterns "
